@@ -1,10 +1,182 @@
 (* C11 — Field FFTs are the discrete Fourier transform at the k-mesh's frequencies.
    ONLY statements, each closed by [exact] of a lemma proved in proofs/, followed by
-   Print Assumptions. *)
-From DF Require Import Prelude Constants_gen Region Mesh Fft C11_shift.
+   Print Assumptions.  Bookkeeping (which bin / which frequency every array position and k-cell
+   holds, meshes, names) is proved for the model of the code, for every size; the DFT itself
+   (scipy's) is an abstract transform over any commutative ring with a root of unity w
+   (hypotheses: w^n = 1 and sum_k w^(d k) = 0 for 0 < d < n). *)
+From DF Require Import Prelude Constants_gen Region Mesh Fft C11_shift C11_kmesh C11_names C11_dft.
+From Coq Require Import ZArithRing.
 
+(* ---------------------------------------------------------------- shifts *)
 (* ifftshift undoes fftshift (and vice versa) for every size *)
 Theorem C11_shift_inverse : forall n j : Z, (0 < n)%Z -> (0 <= j < n)%Z ->
   fftshift_src n (ifftshift_src n j) = j /\ ifftshift_src n (fftshift_src n j) = j.
 Proof. exact (fun n j Hn Hj => conj (fftshift_ifftshift n j Hn Hj) (ifftshift_fftshift n j Hn Hj)). Qed.
 Print Assumptions C11_shift_inverse.
+
+(* they are not interchangeable for odd sizes (>= 3): applying fftshift twice, or fftshift in
+   place of ifftshift, moves every entry; for even sizes they coincide *)
+Theorem C11_shift_not_interchangeable : forall n j : Z, (3 <= n)%Z -> (n mod 2 = 1)%Z -> (0 <= j < n)%Z ->
+  fftshift_src n (fftshift_src n j) <> j /\ fftshift_src n j <> ifftshift_src n j.
+Proof. exact shifts_differ_odd. Qed.
+Print Assumptions C11_shift_not_interchangeable.
+Example C11_shift_not_interchangeable_nonvacuous : (3 <= 5)%Z /\ (5 mod 2 = 1)%Z /\ (0 <= 4 < 5)%Z.
+Proof. exact (conj (Zle_bool_imp_le 3 5 eq_refl) (conj eq_refl (conj (Zle_bool_imp_le 0 4 eq_refl) eq_refl))). Qed.
+
+Theorem C11_shift_even_agree : forall n j : Z, (0 < n)%Z -> (n mod 2 = 0)%Z ->
+  fftshift_src n j = ifftshift_src n j.
+Proof. exact shifts_agree_even. Qed.
+Print Assumptions C11_shift_even_agree.
+
+(* ---------------------------------------------------------------- which bin a position holds *)
+(* position j of a shifted axis holds the DFT bin (j - n//2) mod n, whose signed frequency
+   index (numpy's fftfreq ordering) is j - n//2: bins run from -(n//2) to (n-1)//2 in order *)
+Theorem C11_array_bin : forall n j : Z, (0 < n)%Z -> (0 <= j < n)%Z ->
+  (0 <= src_axis false n j < n)%Z /\
+  src_axis false n j = ((j - n / 2) mod n)%Z /\
+  fftfreq_bin n (src_axis false n j) = (j - n / 2)%Z.
+Proof.
+  exact (fun n j Hn Hj => conj (fftshift_src_range n j Hn)
+                               (conj (fftshift_src_is_bin_mod n j) (fftfreq_bin_shift n j Hn Hj))).
+Qed.
+Print Assumptions C11_array_bin.
+
+(* ---------------------------------------------------------------- k-mesh centres *)
+(* full transform (and every axis but the last of the real one), n >= 2: n cells, centre j is
+   (j - n//2)/(n cell) = the fftfreq value of the bin that fftshift puts at position j *)
+Theorem C11_kcentres : forall (n : Z) (c : Q) (j : Z), (2 <= n)%Z -> 0 < c -> (0 <= j < n)%Z ->
+  thd3 (kaxis false n c) = n /\
+  kcentre false n c j == inject_Z (j - n / 2) / (inject_Z n * c) /\
+  kcentre false n c j == nth (Z.to_nat (fftshift_src n j)) (fftfreq n c) 0.
+Proof. exact kcentres_full. Qed.
+Print Assumptions C11_kcentres.
+Example C11_kcentres_nonvacuous : (2 <= 5)%Z /\ 0 < (1 # 2) /\ (0 <= 3 < 5)%Z.
+Proof. exact (conj (Zle_bool_imp_le 2 5 eq_refl) (conj eq_refl (conj (Zle_bool_imp_le 0 3 eq_refl) eq_refl))). Qed.
+
+(* last axis of the real transform: n//2+1 cells, centre j is j/(n cell) = rfftfreq[j]
+   (the non-negative half, unshifted) *)
+Theorem C11_kcentres_real : forall (n : Z) (c : Q) (j : Z), (2 <= n)%Z -> 0 < c -> (0 <= j <= n / 2)%Z ->
+  thd3 (kaxis true n c) = (n / 2 + 1)%Z /\
+  kcentre true n c j == inject_Z j / (inject_Z n * c) /\
+  kcentre true n c j == nth (Z.to_nat j) (rfftfreq n c) 0.
+Proof. exact kcentres_real. Qed.
+Print Assumptions C11_kcentres_real.
+
+(* single-cell axis: one k-cell of size 1/cell centred at the only DFT frequency, 0 *)
+Theorem C11_kcentre_single_cell : forall (b : bool) (c : Q), 0 < c ->
+  thd3 (kaxis b 1 c) = 1%Z /\ kcentre b 1 c 0 == 0 /\
+  cell_of (fst3 (kaxis b 1 c)) (snd3 (kaxis b 1 c)) 1 == 1 / c.
+Proof. exact kcentre_single. Qed.
+Print Assumptions C11_kcentre_single_cell.
+
+(* ---------------------------------------------------------------- inverse mesh *)
+(* Mesh.ifftn after Mesh.fftn, per axis, given the original count (always known except for
+   the last axis of the real transform): original count, original cell size, centred at 0 *)
+Theorem C11_inverse_mesh_axis : forall (rl : bool) (n : Z) (c : Q), (1 <= n)%Z -> 0 < c ->
+  let ka := kaxis rl n c in
+  let ck := cell_of (fst3 ka) (snd3 ka) (thd3 ka) in
+  exists lo hi, iaxis n ck = Some (lo, hi, n) /\ lo < hi /\ cell_of lo hi n == c /\
+    lo - (1 # 2) * (lo + hi) == - (hi - (1 # 2) * (lo + hi)) /\
+    (hi - (1 # 2) * (lo + hi)) - (lo - (1 # 2) * (lo + hi)) == inject_Z n * c.
+Proof. exact axis_roundtrip. Qed.
+Print Assumptions C11_inverse_mesh_axis.
+
+(* ---------------------------------------------------------------- real half, zero bin *)
+(* position t of the real transform's last axis holds the same bin as position
+   ifftshift_src n t of the full, shifted transform *)
+Theorem C11_real_half : forall n t : Z, (0 < n)%Z -> (0 <= t < n)%Z ->
+  src_axis false n (ifftshift_src n t) = src_axis true n t.
+Proof. exact real_half_position. Qed.
+Print Assumptions C11_real_half.
+
+(* the zero-frequency bin sits at position n//2 of a shifted axis and 0 of the real last axis ... *)
+Theorem C11_zero_bin_position : forall n : Z, (0 < n)%Z ->
+  src_axis false n (n / 2) = 0%Z /\ src_axis true n 0 = 0%Z.
+Proof. exact zero_bin_position. Qed.
+Print Assumptions C11_zero_bin_position.
+
+(* ... and bin 0 of the DFT is the plain sum (any commutative ring, any w) *)
+Theorem C11_zero_bin : forall (K : Type) (k0 k1 : K) (kadd kmul ksub : K -> K -> K) (kopp : K -> K),
+  ring_theory k0 k1 kadd kmul ksub kopp eq ->
+  forall (w : K) (n : nat) (x : nat -> K),
+  dft k0 k1 kadd kmul w n x 0 = ksum k0 kadd n x.
+Proof. exact dft_zero_bin. Qed.
+Print Assumptions C11_zero_bin.
+
+(* ---------------------------------------------------------------- linearity, per component *)
+Theorem C11_linear : forall (K : Type) (k0 k1 : K) (kadd kmul ksub : K -> K -> K) (kopp : K -> K),
+  ring_theory k0 k1 kadd kmul ksub kopp eq ->
+  forall (w : K) (n : nat) (a b : K) (x y : nat -> K) (k : nat),
+  dft k0 k1 kadd kmul w n (fun j => kadd (kmul a (x j)) (kmul b (y j))) k
+  = kadd (kmul a (dft k0 k1 kadd kmul w n x k)) (kmul b (dft k0 k1 kadd kmul w n y k)).
+Proof. exact dft_linear. Qed.
+Print Assumptions C11_linear.
+
+(* the arrangement into the returned array is a re-indexing that commutes with every cell-wise
+   map (component extraction, scaling): transforms act per component *)
+Theorem C11_per_component : forall (V W : Type) (f : V -> W) (d : V) (real : bool) (ns : list Z) (bins : list V),
+  arrange (f d) real ns (map f bins) = map f (arrange d real ns bins).
+Proof. exact @arrange_map. Qed.
+Print Assumptions C11_per_component.
+
+(* ---------------------------------------------------------------- inversion of the DFT *)
+(* sum_k X[k] w^(-r k) = n x[r] and DFT(sum_m X[m] w^(-r m))[k] = n X[k]: the inverse transform
+   (1/n) sum_k X[k] w^(-r k) is a two-sided inverse wherever n is invertible *)
+Theorem C11_inverse : forall (K : Type) (k0 k1 : K) (kadd kmul ksub : K -> K -> K) (kopp : K -> K),
+  ring_theory k0 k1 kadd kmul ksub kopp eq ->
+  forall (w : K) (n : nat), (1 <= n)%nat ->
+  kpow k1 kmul w n = k1 ->
+  (forall d, (0 < d < n)%nat -> ksum k0 kadd n (fun k => kpow k1 kmul w (d * k)) = k0) ->
+  (forall (x : nat -> K) (r : nat), (r < n)%nat ->
+     ksum k0 kadd n (fun k => kmul (dft k0 k1 kadd kmul w n x k) (kpow k1 kmul (winv k1 kmul w n) (r * k)))
+     = kmul (x r) (ofnat k0 k1 kadd n)) /\
+  (forall (X : nat -> K) (k : nat), (k < n)%nat ->
+     dft k0 k1 kadd kmul w n (fun r => ksum k0 kadd n (fun m => kmul (X m) (kpow k1 kmul (winv k1 kmul w n) (r * m)))) k
+     = kmul (X k) (ofnat k0 k1 kadd n)).
+Proof.
+  exact (fun K k0 k1 kadd kmul ksub kopp KR w n Hn Hroot Horth =>
+           conj (dft_inverse K k0 k1 kadd kmul ksub kopp KR w n Hn Hroot Horth)
+                (dft_inverse_r K k0 k1 kadd kmul ksub kopp KR w n Hn Hroot Horth)).
+Qed.
+Print Assumptions C11_inverse.
+(* the hypotheses are satisfiable: Z with w = -1, n = 2 *)
+Example C11_inverse_nonvacuous :
+  (1 <= 2)%nat /\ kpow 1%Z Z.mul (-1)%Z 2 = 1%Z /\
+  (forall d, (0 < d < 2)%nat -> ksum 0%Z Z.add 2 (fun k => kpow 1%Z Z.mul (-1)%Z (d * k)) = 0%Z).
+Proof.
+  exact (conj (le_S 1 1 (le_n 1)) (conj eq_refl
+    (fun d H => match d as d' return (0 < d' < 2)%nat -> ksum 0%Z Z.add 2 (fun k => kpow 1%Z Z.mul (-1)%Z (d' * k)) = 0%Z with
+                | 1%nat => fun _ => eq_refl
+                | O => fun H' => match Nat.lt_irrefl 0 (proj1 H') with end
+                | S (S m) => fun H' => match Nat.lt_irrefl 2 (Nat.le_lt_trans 2 (S (S m)) 2 (le_n_S 1 (S m) (le_n_S 0 m (Nat.le_0_l m))) (proj2 H')) with end
+                end H))).
+Qed.
+
+(* bins n-k and k are transforms with w and w^-1: the half spectrum 0..n//2 determines the rest
+   for data fixed by conjugation (the real transform) *)
+Theorem C11_mirror : forall (K : Type) (k0 k1 : K) (kadd kmul ksub : K -> K -> K) (kopp : K -> K),
+  ring_theory k0 k1 kadd kmul ksub kopp eq ->
+  forall (w : K) (n : nat), (1 <= n)%nat -> kpow k1 kmul w n = k1 ->
+  forall (x : nat -> K) (k : nat), (0 < k <= n)%nat ->
+  dft k0 k1 kadd kmul w n x (n - k) = ksum k0 kadd n (fun j => kmul (x j) (kpow k1 kmul (winv k1 kmul w n) (j * k))).
+Proof. exact dft_mirror. Qed.
+Print Assumptions C11_mirror.
+
+(* ---------------------------------------------------------------- names *)
+(* reciprocal dimension names, units and component labels are undone by the inverse transforms *)
+Theorem C11_names : forall ds us vs : list string,
+  map unkdim (map kdim ds) = ds /\ map unkunit (map kunit us) = us /\
+  map unft_label (map ft_label vs) = vs.
+Proof. exact names_roundtrip. Qed.
+Print Assumptions C11_names.
+
+(* labels and the label -> axis mapping are renamed consistently (ft_ / k_) and come back *)
+Theorem C11_rename_roundtrip : forall (vs : list string) (mp : list (string * string)),
+  rename false (Some vs) mp =
+    (Some (map ft_label vs),
+     flat_map (fun v => match assoc v mp with Some d => [(ft_label v, kdim d)] | None => [] end) vs) /\
+  (let r := rename false (Some vs) mp in
+   rename true (fst r) (snd r) =
+   (Some vs, flat_map (fun v => match assoc v mp with Some d => [(v, d)] | None => [] end) vs)).
+Proof. exact (fun vs mp => conj (rename_forward vs mp) (rename_roundtrip vs mp)). Qed.
+Print Assumptions C11_rename_roundtrip.
